@@ -3,6 +3,7 @@
 package weshnet
 
 import (
+	"reflect"
 	"context"
 	"crypto/ed25519"
 	"crypto/sha256"
@@ -296,4 +297,48 @@ func waitOwnAnnouncement(gc *GroupContext) {
 		}
 		time.Sleep(3 * time.Millisecond)
 	}
+}
+
+// vCallPadded calls an internal function of the package by reflection, filling parameters the harness does not know
+// (a refactoring of the tree under test may add trailing options) with `true` for booleans and zero values otherwise,
+// so that such a refactoring is judged by the checks instead of breaking the build of the harness.
+func vCallPadded(fn interface{}, args ...interface{}) []reflect.Value {
+	f := reflect.ValueOf(fn)
+	ft := f.Type()
+	in := make([]reflect.Value, 0, ft.NumIn())
+	for i := 0; i < ft.NumIn(); i++ {
+		pt := ft.In(i)
+		switch {
+		case i < len(args) && args[i] != nil:
+			in = append(in, reflect.ValueOf(args[i]))
+		case i < len(args):
+			in = append(in, reflect.Zero(pt))
+		case pt.Kind() == reflect.Bool:
+			in = append(in, reflect.ValueOf(true))
+		default:
+			in = append(in, reflect.Zero(pt))
+		}
+	}
+	return f.Call(in)
+}
+
+func vErrOf(v reflect.Value) error {
+	if v.IsNil() {
+		return nil
+	}
+	return v.Interface().(error)
+}
+
+func vOpenGroupEnvelope(g *protocoltypes.Group, b []byte) (*protocoltypes.GroupMetadata, proto.Message, error) {
+	out := vCallPadded(openGroupEnvelope, g, b)
+	meta, _ := out[0].Interface().(*protocoltypes.GroupMetadata)
+	msg, _ := out[1].Interface().(proto.Message)
+	return meta, msg, vErrOf(out[2])
+}
+
+func vOpenMetadataEntry(log ipfslog.Log, e ipfslog.Entry, g *protocoltypes.Group) (*protocoltypes.GroupMetadataEvent, proto.Message, error) {
+	out := vCallPadded(openMetadataEntry, log, e, g)
+	ev, _ := out[0].Interface().(*protocoltypes.GroupMetadataEvent)
+	msg, _ := out[1].Interface().(proto.Message)
+	return ev, msg, vErrOf(out[2])
 }
